@@ -3,13 +3,17 @@
 // Observation: <encoded calls in delivery order> status line nerr
 //   status 1 = accepted (readSmodels returned 0), 0 = rejected through the error handler, 7 = an exception escaped
 //   line   = line passed to the error handler (0 when accepted), nerr = number of handler invocations
+// Every other case (reuse::primed, a hash of the case) reads the text with a SmodelsInput OBJECT that has read an accepted primer text before
+// (an incremental one, starting with rule type 90, when the case enables claspExt); the primer's calls are discarded. See reuse.h.
 #include "rec.h"
+#include "reuse.h"
 #include <potassco/smodels.h>
 static int g_line = 0, g_nerr = 0;
 static int onError(int line, const char*) { g_line = line; ++g_nerr; return 1000 + line; }
 int main() {
 	Case c; Obs o;
 	while (readCase(c)) {
+		const bool primed = reuse::primed(c);
 		ll n = c.next();
 		if (n != Potassco::BufferedStream::BUF_SIZE) { o.add(-999); o.flush(); continue; }
 		ll opts = c.next();
@@ -22,11 +26,18 @@ int main() {
 		if (opts & 4) op.convertHeuristic();
 		if (opts & 8) op.dropConverted();
 		std::istringstream is(in);
+		std::istringstream primer((opts & 1) ? reuse::SMODELS_PRIMER_EXT : reuse::SMODELS_PRIMER);
 		g_line = 0; g_nerr = 0;
 		int status = 7;
 		try {
 			Recorder rec(o);
-			int r = Potassco::readSmodels(is, rec, &onError, op);
+			int r;
+			if (primed) {
+				Potassco::SmodelsInput reader(rec, op);
+				reuse::prime(reader, primer); o.s.clear();    // o is empty at this point: only the primer's calls are dropped
+				r = Potassco::readProgram(is, reader, &onError); // = readSmodels on an existing reader object
+			}
+			else { r = Potassco::readSmodels(is, rec, &onError, op); }
 			status = r == 0 ? 1 : 0;
 			if (r != 0 && r != 1000 + g_line) status = 8; // the handler's result must be passed through
 		}
